@@ -17,8 +17,17 @@ pub struct V7Parser;
 
 impl V7Parser {
     pub fn parse(packet: &[u8]) -> Result<ParsedNetflow, NetflowParseError> {
+        Self::parse_packet(packet)
+            .map(|(remaining, packet)| ParsedNetflow::new(remaining, packet))
+    }
+
+    /// Like `parse`, but hands back the unparsed tail as a slice of `packet`
+    /// instead of copying it.
+    pub(crate) fn parse_packet(
+        packet: &[u8],
+    ) -> Result<(&[u8], NetflowPacket), NetflowParseError> {
         V7::parse(packet)
-            .map(|(remaining, v7)| ParsedNetflow::new(remaining, NetflowPacket::V7(v7)))
+            .map(|(remaining, v7)| (remaining, NetflowPacket::V7(v7)))
             .map_err(|e| {
                 NetflowParseError::Partial(PartialParse {
                     version: 7,
